@@ -3,6 +3,8 @@ NOTES = ("All checks are model-based: explicit TLA+ specifications in spec/ chec
          "implementation by replaying TLC behaviours into the real code and validating recorded executions "
          "against trace specifications (see DESIGN.md). Exit 2 = machinery failure.")
 ENGINES = [
+    {"name": "cardquery", "path": "harness/cardcheck.py", "serves_properties": ["C12"],
+     "kind_free_text": "CardQuery.tla tables enumerated by TLC (CardQueryCases.tla), executed via REPORT, judged by CardQueryTrace.tla"},
     {"name": "calquery", "path": "harness/calcheck.py", "serves_properties": ["C11"],
      "kind_free_text": "CalQuery.tla tables enumerated by TLC (CalQueryCases.tla), executed via REPORT, judged by CalQueryTrace.tla"},
     {"name": "index", "path": "harness/indexcheck.py", "serves_properties": ["C10"],
@@ -58,6 +60,10 @@ def table(dav):
         "CalQuery.tla transcribes RFC 4791 9.7.1-9.7.5 and the 9.9 time-range tables as TLA+ operators; TLC enumerates the complete finite case space (every presence/ordering cell of the VEVENT/VTODO/VJOURNAL/VFREEBUSY tables on a 7-point grid with both range boundaries inside: 308 component cases; 450 filter-shape x object-shape cases) with the expected verdicts. Every case is concretised in UTC, floating, TZID and DATE renderings under three effective time zones, uploaded and queried through REPORT calendar-query on the real server; TLC re-evaluates the operators on the observed results (CalQueryTrace.tla). This is an exhaustive decision-table check with TLC as enumerator and oracle, not a behavioural model: claimed as exploration (exhaustive over the stated finite grid).",
         "TLA+ transcription of the RFC decision tables, enumerated by TLC and compared case by case with the implementation",
         "Recurrence expansion outside the grid; date arithmetic of icalendar/zoneinfo trusted; a wrong verdict is identified by its table coordinates; harness/compat.py."))
+    checks.append(other("C12", "cardquery", "exploration",
+        "CardQuery.tla transcribes RFC 6352 10.5 (anyof/allof, prop-filter presence / is-not-defined / test attribute, text-match with four match types, negation and three collations, param-filter) over texts on a five-letter alphabet with case pairs and non-ASCII letters; TLC enumerates every text-match x value case (quick: values up to length 2, thorough: 3) and a table of filter structures x multi-instance / parameterised cards with expected verdicts, plus nresults limits. Each query is executed through REPORT addressbook-query on the real server (both front ends) and the observed result sets are re-judged by TLC (CardQueryTrace.tla); address-data is compared with GET. Exhaustive decision-table check, claimed as exploration.",
+        "TLA+ transcription of the RFC matching rules, enumerated by TLC and compared case by case with the implementation",
+        "vCard 3.0 cards with FN/N/EMAIL/NOTE only; a wrong verdict is identified by match type, collation, negation and the needle/value relation; harness/compat.py."))
     na = [{"property_id": p, "reason": "check not built yet in this round; planned in DESIGN.md section 5"}
-          for p in ALL if p not in claimed + ["C04", "C05", "C10", "C11"]]
+          for p in ALL if p not in claimed + ["C04", "C05", "C10", "C11", "C12"]]
     return checks, na
